@@ -643,6 +643,12 @@ def isNameT : Expr → Bool
   | .name .. => true
   | _ => false
 
+/-- `except:` or `except Name:` -/
+def handlerTypeOk : List Expr → Bool
+  | [] => true
+  | [t] => isNameT t
+  | _ => false
+
 def isSingleName : List Expr → Bool
   | [t] => isNameT t
   | _ => false
@@ -654,6 +660,7 @@ def fragS (cfg : Config) : Stmt → Bool
   | .ret _ vs => (match vs with | [] => true | [v] => fragE v && okT cfg v | _ => false)
   | .if_ _ t b e => fragE t && okT cfg t && fragSs cfg b && fragSs cfg e
   | .for_ _ tg it b e _ isAsync => isNameT tg && !isAsync && fragE it && okT cfg it && fragSs cfg b && fragSs cfg e
+  | .try_ _ b hs e f => fragSs cfg b && fragHs cfg hs && fragSs cfg e && fragSs cfg f
   | .pass _ => true
   | .break_ _ => true
   | .continue_ _ => true
@@ -661,6 +668,11 @@ def fragS (cfg : Config) : Stmt → Bool
 def fragSs (cfg : Config) : List Stmt → Bool
   | [] => true
   | s :: ss => fragS cfg s && fragSs cfg ss
+/-- handlers `except:` / `except Name:` (no `as`) with bodies in the fragment -/
+def fragHs (cfg : Config) : List Stmt → Bool
+  | [] => true
+  | .handler _ ty nm b :: hs => handlerTypeOk ty && nm.isEmpty && fragSs cfg b && fragHs cfg hs
+  | _ :: _ => false
 end
 
 /-- `def f(params): body` without defaults, annotations, decorators; body in the fragment. -/
